@@ -2,6 +2,7 @@
 from __future__ import annotations
 
 import functools
+import itertools
 import warnings
 
 import build as B
@@ -26,6 +27,34 @@ VALUED = {"RetStopInst", "RaiseStopInst", "RetStopIterInst", "RaiseStopIterInst"
 
 class _Boom(Exception):
     pass
+
+
+class _Broken(Exception):
+    """The implementation left the domain in which observing it is safe (tree modified by a read-only call,
+    runaway traversal): the case ends at once with this oracle failure."""
+
+
+class _Runaway(BaseException):
+    """raised from inside the callback when visit() makes far more calls than the tree has nodes"""
+
+
+def label_targeted(nodes):
+    """Clones in the relation 'the last child of P carries the data of the node that precedes P's branch'
+    (P's previous sibling, else the previous sibling of the nearest ancestor that has one), wherever sibling
+    uniqueness allows.  nodes: distinctly labelled forest description; modified copy is returned."""
+    import copy
+    nodes = copy.deepcopy(nodes)
+
+    def go(forest, inherited):
+        for i, nd in enumerate(forest):
+            q = forest[i - 1][0] if i > 0 else inherited
+            kids = nd[3]
+            if kids and q is not None and all(k[0] != q for k in kids[:-1]):
+                kids[-1][0] = q
+            go(kids, q)
+
+    go(nodes, None)
+    return nodes
 
 
 def coq_raw(shape):
@@ -111,8 +140,13 @@ class Prop:
     case_module = "CaseC06"
     case_vo = "theories/Cases/CaseC06.vo"
     run_fn = "run06"
-    shard = 10
-    rule = ("one case = one tree: every ordered forest shape with <= N nodes (N=5 quick, 7 thorough; <=4 resp. <=5 nodes with every "
+    shard = 8
+    rule = ("clone / equal-data labelings of every shape with 2..5 (thorough 6) nodes: one object everywhere under distinct explicit ids, "
+            "same object at several depths / in cousins, value-equal distinct objects, and 'last child carries the data of the node "
+            "preceding its parent's branch'; random trees: one third each distinct / positional clones / targeted clones; after EVERY "
+            "iterator / visit call the tree is re-read by pointers and compared with the snapshot taken before (read-only), a second "
+            "traversal follows every visit, and every traversal is cut after 10 x nodes items; "
+            "one case = one tree: every ordered forest shape with <= N nodes (N=5 quick, 7 thorough; <=3 resp. <=5 nodes with every "
             "signal shape, larger ones with a rotating skip/stop/error shape; 7-node shapes: visit() from every third start node) plus "
             "seeded random deep/wide plain and typed trees up to "
             "60 (thorough 200) nodes with sampled start/signal nodes; per tree: 8 methods x every start node (and the whole tree) x "
@@ -155,7 +189,7 @@ class Prop:
     # ----- generation
     def descs(self, tier, rng):
         quick = tier == "quick"
-        nfull = 4 if quick else 5
+        nfull = 3 if quick else 5
         nmax = 5 if quick else 7
         ctr = 0
         for n in range(0, nmax + 1):
@@ -176,6 +210,30 @@ class Prop:
                     sel = dict(istarts=[0] + idx, vstarts=[0] + [i for i in idx if i % 3 == ctr % 3], sigs=idx,
                                counts=[0, n // 2, n - 1])
                 yield dict(typed=False, univ=univ, nodes=nodes, sn=sn, sk=sk, sel=sel)
+                # the same shape with clones / equal-comparing data (Node.__eq__ compares data): lighter selection
+                if 2 <= n <= (5 if quick else 6):
+                    idx = list(range(1, n + 1))
+                    lsel = dict(istarts=[0] + idx, vstarts=[0, 1 + ctr % n], sigs=idx, counts=[0, n // 2])
+                    lsn = [SKIPS[ctr % 4], STOPS[ctr % len(STOPS)]]
+                    lsk = [STOPS[(ctr + 3) % len(STOPS)]]
+                    variants = [
+                        # one data object everywhere (every node == every node), told apart by explicit data_ids
+                        ("allsame", ["s:same"], B.shape_to_nodes(shape, lambda i, d, si: (0, None, "k%d" % i))),
+                        # same object at several depths / in cousins: label depends on (sibling index, depth parity)
+                        ("cyc", [f"s:c{i}" for i in range(2 * n)], B.shape_to_nodes(shape, lambda i, d, si: (2 * si + d % 2, None, None))),
+                        # equal-but-distinct objects (value equality, equal hash) in the same pattern
+                        ("eqobj", [f"e:{i // 2}" for i in range(2 * n)],
+                         B.shape_to_nodes(shape, lambda i, d, si: (2 * si + d % 2, None, "q%d" % i))),
+                    ]
+                    if n == 5:          # the two position-based labelings alternate
+                        del variants[1 + ctr % 2]
+                    elif n >= 6:        # thorough only: one of the three in rotation (+ the targeted one)
+                        variants = [variants[ctr % 3]]
+                    tg = label_targeted(nodes)
+                    if tg != nodes:
+                        variants.append(("targeted", univ, tg))
+                    for _nm, vuniv, vnodes in variants:
+                        yield dict(typed=False, univ=vuniv, nodes=vnodes, sn=lsn, sk=lsk, sel=lsel)
         nrand = 24 if quick else 60
         top = 60 if quick else 200
         for j in range(nrand):
@@ -183,7 +241,13 @@ class Prop:
             shape = H.random_shape(rng, n, deep=rng.choice([0.15, 0.5, 0.9]))
             typed = j % 4 == 3
             univ = [f"i:{i}" for i in range(n)]
-            nodes = B.shape_to_nodes(shape, lambda i, d, s: (i, ("k%d" % (i % 2)) if typed else None, None))
+            kind = (lambda i: ("k%d" % (i % 2)) if typed else None)  # noqa: E731
+            nodes = B.shape_to_nodes(shape, lambda i, d, s: (i, kind(i), None))
+            if j % 3 == 1:      # clones: same object wherever (sibling index, depth mod 3) coincide
+                univ = [f"i:{i}" for i in range(3 * n)]
+                nodes = B.shape_to_nodes(shape, lambda i, d, s: (3 * s + d % 3, kind(i), None))
+            elif j % 3 == 2:    # clones in the 'last child = data of the preceding branch' relation
+                nodes = label_targeted(nodes)
             idx = list(range(1, n + 1))
             sel = dict(istarts=[0] + (idx if n <= 40 else sorted(rng.sample(idx, 12))),
                        vstarts=[0] + sorted(rng.sample(idx, 3)),
@@ -229,23 +293,65 @@ class Prop:
         sn, sk = desc["sn"], desc["sk"]
         stats = dict(nodes=n, depth=B.nodes_depth(desc["nodes"]), visits=0, skip_effective=0, stop_effective=0)
 
-        def it_obs(fn, sort=False):
+        # everything the model needs is read BEFORE the first traversal
+        reg = [H.nid(x) for x in tree._node_by_id.values()]
+        reg_ok = sorted(reg) == sorted(H.nid(x) for x in nodes)
+        nat = lambda l: H.coq_list(f"{x}%nat" for x in l)  # noqa: E731
+        coq = (f"({H.coq_forest(tree._root, U)}, {nat(reg)}, Sel {nat(istarts)} {nat(vstarts)} {nat(sorted(sigs))} {nat(counts)} "
+               f"{H.coq_list(coq_raw(s) for s in sn)} {H.coq_list(coq_raw(s) for s in sk)})")
+        key = H.digest([desc["univ"], desc["nodes"], desc.get("sel"), desc["sn"], desc["sk"]])
+        try:
+            return self._observe(desc, tree, nodes, n, istarts, vstarts, sigs, counts, sn, sk, stats, reg, reg_ok, coq, key)
+        except _Broken as e:
+            # the implementation corrupted the tree or ran away: no further observation is attempted
+            return Case(desc=desc, coq_input=coq, impl_obs=[-9], oracle_fail=str(e), nontrivial=True, key=key, stats=stats)
+
+    def _observe(self, desc, tree, nodes, n, istarts, vstarts, sigs, counts, sn, sk, stats, reg, reg_ok, coq, key):
+        limit = 10 * (n + 1) + 10                     # no traversal of n nodes may yield / call more than this
+        everyone = [tree._root] + nodes
+        base_pre = [H.nid(x) for x in nodes]          # pre-order by pointers, taken before any traversal
+
+        def snapshot():
+            return ([(id(x._parent), tuple(id(c) for c in (x._children or ()))) for x in everyone],
+                    [id(x) for x in tree._node_by_id.values()])
+
+        snap0 = snapshot()
+
+        def read_only(what):
+            """traversals are read-only: child lists (by identity), parent pointers and the registry are as before"""
+            if snapshot() != snap0:
+                raise _Broken(f"read-only: {what} modified the tree (child lists / parent pointers / registry differ from "
+                              f"the snapshot taken before)")
+
+        def bounded(it, what):
+            r = [H.nid(x) for x in itertools.islice(it, limit + 1)]
+            if len(r) > limit:
+                raise _Broken(f"{what}: yields more than {limit} nodes from a tree of {n} nodes (does not terminate / repeats nodes)")
+            return r
+
+        def it_obs(fn, what, sort=False):
             try:
-                r = [H.nid(x) for x in fn()]
-                return sorted(r) if sort else r
+                r = bounded(fn(), what)
+                r = sorted(r) if sort else r
+            except _Broken:
+                raise
             except Exception as e:  # noqa: BLE001
-                return [-1, H.err_class(e)]
+                r = [-1, H.err_class(e)]
+            read_only(what)
+            return r
 
         side = dict(memo=None, warn=None, dunder_iter=None)   # behaviour outside the model, judged by the oracle only
         sentinel = []          # falsy on purpose: an empty collector is the typical memo argument
 
-        def one_visit(call, trigger, shape):
+        def one_visit(call, trigger, shape, what="visit"):
             calls = []
             memos = []
             fired = []
 
             def cb(node, memo):
                 k = len(calls)
+                if k > limit:
+                    raise _Runaway()
                 calls.append(H.nid(node))
                 memos.append(memo)
                 if trigger is not None and fires(trigger, H.nid(node), k):
@@ -261,8 +367,18 @@ class Prop:
                 try:
                     res = call(cb, **kw)
                     out = [calls, res_obs(res)]
+                except _Runaway:
+                    raise _Broken(f"{what}: more than {limit} callback calls on a tree of {n} nodes (does not terminate / "
+                                  f"repeats nodes)") from None
                 except Exception as e:  # noqa: BLE001
                     out = [calls, [-1, H.err_class(e)]]
+            read_only(what)
+            # ... and a traversal AFTER the visit still sees every node once (always for the plain visit, and for
+            # every signalling visit on small trees)
+            if trigger is None or n <= 8:
+                again = bounded(tree.iterator(), f"pre-order after {what}")
+                if again != base_pre:
+                    raise _Broken(f"traversal after {what} yields {again}, expected {base_pre}")
             # memo: the caller's object (or one fresh dict per traversal) reaches every call
             if memos and side["memo"] is None:
                 if own_memo and any(m is not sentinel for m in memos):
@@ -276,10 +392,10 @@ class Prop:
                 side["warn"] = f"warning: RuntimeWarning emitted={warned} expected={expect_warn} for signal {shape} ({calls})"
             return out
 
-        def visit_obs(call):
-            b = one_visit(call, None, None)
-            per_node = [[one_visit(call, ("node", x), r) for r in sn] for x in b[0] if x in sigs]
-            per_call = [[one_visit(call, ("call", k), r) for r in sk] for k in counts if k < len(b[0])]
+        def visit_obs(call, what):
+            b = one_visit(call, None, None, what)
+            per_node = [[one_visit(call, ("node", x), r, f"{what} signal {r} at node {x}") for r in sn] for x in b[0] if x in sigs]
+            per_call = [[one_visit(call, ("call", k), r, f"{what} signal {r} at call {k}") for r in sk] for k in counts if k < len(b[0])]
             for grp in per_node + per_call:
                 for o in grp:
                     if o[1] == [] and len(o[0]) < len(b[0]):
@@ -288,30 +404,29 @@ class Prop:
                         stats["stop_effective"] += 1
             return [b, per_node, per_call]
 
-        t_it = ([it_obs(lambda m=m: tree.iterator(m), sort=m in (IterMethod.RANDOM_ORDER, IterMethod.UNORDERED)) for m in METHS]
-                if 0 in istarts else [])
-        t_vis = [visit_obs(lambda cb, m=m, **kw: tree.visit(cb, method=m, **kw)) for m in METHS] if 0 in vstarts else []
-        n_it = [[[it_obs(lambda m=m, a=a, nd=nd: nd.iterator(m, add_self=a)) for m in METHS] for a in (False, True)]
+        t_it = ([it_obs(lambda m=m: tree.iterator(m), f"tree.iterator({MNAMES[mi]})", sort=m in (IterMethod.RANDOM_ORDER, IterMethod.UNORDERED))
+                 for mi, m in enumerate(METHS)] if 0 in istarts else [])
+        t_vis = ([visit_obs(lambda cb, m=m, **kw: tree.visit(cb, method=m, **kw), f"tree.visit({MNAMES[mi]})")
+                  for mi, m in enumerate(METHS)] if 0 in vstarts else [])
+        n_it = [[[it_obs(lambda m=m, a=a, nd=nd: nd.iterator(m, add_self=a), f"node {H.nid(nd)}.iterator({MNAMES[mi]}, add_self={a})")
+                  for mi, m in enumerate(METHS)] for a in (False, True)]
                 for nd in nodes if H.nid(nd) in istarts]
-        n_vis = [[[visit_obs(lambda cb, m=m, a=a, nd=nd, **kw: nd.visit(cb, method=m, add_self=a, **kw)) for m in METHS] for a in (False, True)]
+        n_vis = [[[visit_obs(lambda cb, m=m, a=a, nd=nd, **kw: nd.visit(cb, method=m, add_self=a, **kw),
+                             f"node {H.nid(nd)}.visit({MNAMES[mi]}, add_self={a})")
+                   for mi, m in enumerate(METHS)] for a in (False, True)]
                  for nd in nodes if H.nid(nd) in vstarts]
         # `for n in tree` / `for n in node` (__iter__ = iterator): pre-order without the start node
-        if 0 in istarts and [H.nid(x) for x in tree] != t_it[0]:
+        if 0 in istarts and bounded(iter(tree), "for n in tree") != t_it[0]:
             side["dunder_iter"] = "__iter__: `for n in tree` differs from tree.iterator()"
         for nd, ob in zip([x for x in nodes if H.nid(x) in istarts], n_it):
-            if [H.nid(x) for x in nd] != ob[0][0]:
+            if bounded(iter(nd), "for n in node") != ob[0][0]:
                 side["dunder_iter"] = f"__iter__: `for n in node` differs from node.iterator() at {H.nid(nd)}"
-        reg = [H.nid(x) for x in tree._node_by_id.values()]
-        reg_ok = sorted(reg) == sorted(H.nid(x) for x in nodes)
+        read_only("__iter__")
         obs = [t_it, t_vis, n_it, n_vis, reg_ok]
 
         fail = self.oracle(tree, nodes, istarts, vstarts, sigs, counts, sn, sk, obs, side)
-        nat = lambda l: H.coq_list(f"{x}%nat" for x in l)  # noqa: E731
-        coq = (f"({H.coq_forest(tree._root, U)}, {nat(reg)}, Sel {nat(istarts)} {nat(vstarts)} {nat(sorted(sigs))} {nat(counts)} "
-               f"{H.coq_list(coq_raw(s) for s in sn)} {H.coq_list(coq_raw(s) for s in sk)})")
         return Case(desc=desc, coq_input=coq, impl_obs=obs, oracle_fail=fail,
-                    nontrivial=stats["skip_effective"] + stats["stop_effective"] > 0,
-                    key=H.digest([desc["nodes"], desc.get("sel"), desc["sn"], desc["sk"]]), stats=stats)
+                    nontrivial=stats["skip_effective"] + stats["stop_effective"] > 0, key=key, stats=stats)
 
     # ----- the property statement, executed on pointer structure
     def oracle(self, tree, nodes, istarts, vstarts, sigs, counts, sn, sk, obs, side):
